@@ -16,6 +16,21 @@ use crate::scenario::{Components, Scenario, Tier};
 
 pub const DEFAULT_SEED: u64 = 20260921;
 
+/// `serde_json::Value` cannot hold 128-bit integers beyond 64 bits: such plans are embedded as JSON text.
+pub fn enc<T: Serialize>(t: &T) -> Value {
+    match serde_json::to_value(t) {
+        Ok(v) => v,
+        Err(_) => json!({ "__json": serde_json::to_string(t).unwrap_or_default() }),
+    }
+}
+
+pub fn dec<T: serde::de::DeserializeOwned>(v: &Value) -> Result<T, String> {
+    if let Some(text) = v.get("__json").and_then(|x| x.as_str()) {
+        return serde_json::from_str(text).map_err(|e| e.to_string());
+    }
+    serde_json::from_value(v.clone()).map_err(|e| e.to_string())
+}
+
 #[derive(Clone, Debug)]
 pub struct Ctx {
     pub seed: u64,
@@ -365,8 +380,8 @@ impl<S: Scenario + 'static> PartDyn for Part<S> {
                         if record {
                             l.samples.push(json!({
                                 "run": run,
-                                "cfg": serde_json::to_value(&cfg).unwrap_or(Value::Null),
-                                "steps": steps.iter().take(12).map(|x| serde_json::to_value(x).unwrap_or(Value::Null)).collect::<Vec<_>>(),
+                                "cfg": enc(&cfg),
+                                "steps": steps.iter().take(12).map(enc).collect::<Vec<_>>(),
                                 "n_steps": steps.len(),
                                 "history_head": r.obs.history.iter().take(25).cloned().collect::<Vec<_>>(),
                             }));
@@ -458,8 +473,8 @@ impl<S: Scenario + 'static> PartDyn for Part<S> {
                 property: property.to_string(),
                 seed: ctx.seed,
                 run,
-                cfg: serde_json::to_value(&cfg).unwrap(),
-                steps: steps.iter().map(|x| serde_json::to_value(x).unwrap()).collect(),
+                cfg: enc(&cfg),
+                steps: steps.iter().map(enc).collect(),
                 violation: Violation {
                     property: property.to_string(),
                     oracle: "harness_panic".into(),
@@ -500,8 +515,8 @@ impl<S: Scenario + 'static> PartDyn for Part<S> {
                 property: property.to_string(),
                 seed: ctx.seed,
                 run,
-                cfg: serde_json::to_value(&mcfg).unwrap(),
-                steps: msteps.iter().map(|x| serde_json::to_value(x).unwrap()).collect(),
+                cfg: enc(&mcfg),
+                steps: msteps.iter().map(enc).collect(),
                 violation: mv.clone(),
                 original_steps: original,
                 history: r.obs.history.clone(),
@@ -555,7 +570,7 @@ impl<S: Scenario + 'static> PartDyn for Part<S> {
         if file.scenario != self.s.name() {
             return None;
         }
-        let cfg: S::Cfg = match serde_json::from_value(file.cfg.clone()) {
+        let cfg: S::Cfg = match dec(&file.cfg) {
             Ok(c) => c,
             Err(e) => {
                 eprintln!("HARNESS-ERROR: cannot decode cfg: {e}");
@@ -566,7 +581,7 @@ impl<S: Scenario + 'static> PartDyn for Part<S> {
             .steps
             .iter()
             .map(|v| {
-                serde_json::from_value(v.clone()).unwrap_or_else(|e| {
+                dec(v).unwrap_or_else(|e| {
                     eprintln!("HARNESS-ERROR: cannot decode step: {e}");
                     std::process::exit(2);
                 })
